@@ -59,6 +59,9 @@ func (r *RectClip64) Execute(paths Paths64) Paths64 {
 	}
 
 	for _, path := range paths {
+		if verifOn {
+			verifGate(r)
+		}
 		if len(path) < 3 {
 			continue
 		}
